@@ -598,8 +598,8 @@ func encodeXtext(raw string) string {
 			// printable non-space US-ASCII except '+' and '='
 			out.WriteRune(ch)
 		default:
-			out.WriteRune('+')
-			out.WriteString(strings.ToUpper(strconv.FormatInt(int64(ch), 16)))
+			// hexchar is "+" followed by exactly two hex digits
+			fmt.Fprintf(&out, "+%02X", ch)
 		}
 	}
 	return out.String()
@@ -612,15 +612,12 @@ func encodeUTF8AddrXtext(raw string) string {
 
 	for _, ch := range raw {
 		switch {
-		case ch >= '!' && ch <= '~' && ch != '+' && ch != '=':
-			// printable non-space US-ASCII except '+' and '='
+		case ch >= '!' && ch <= '~' && ch != '+' && ch != '=' && ch != '\\':
+			// printable non-space US-ASCII except '+', '=' and '\\'
 			out.WriteRune(ch)
 		default:
-			out.WriteRune('\\')
-			out.WriteRune('x')
-			out.WriteRune('{')
-			out.WriteString(strings.ToUpper(strconv.FormatInt(int64(ch), 16)))
-			out.WriteRune('}')
+			// HEXPOINT has at least two digits
+			fmt.Fprintf(&out, "\\x{%02X}", ch)
 		}
 	}
 	return out.String()
@@ -633,16 +630,12 @@ func encodeUTF8AddrUnitext(raw string) string {
 
 	for _, ch := range raw {
 		switch {
-		case ch >= '!' && ch <= '~' && ch != '+' && ch != '=':
-			// printable non-space US-ASCII except '+' and '='
+		case ch >= '!' && ch <= '~' && ch != '+' && ch != '=' && ch != '\\':
+			// printable non-space US-ASCII except '+', '=' and '\\'
 			out.WriteRune(ch)
 		case ch <= '\x7F':
 			// other ASCII: CTLs, space and specials
-			out.WriteRune('\\')
-			out.WriteRune('x')
-			out.WriteRune('{')
-			out.WriteString(strings.ToUpper(strconv.FormatInt(int64(ch), 16)))
-			out.WriteRune('}')
+			fmt.Fprintf(&out, "\\x{%02X}", ch)
 		default:
 			// UTF-8 non-ASCII
 			out.WriteRune(ch)
